@@ -403,7 +403,7 @@ public:
 	Array& remove(int i, int n = 1)
 	{
 		int m = d().n;
-		if (i + n > m)
+		if (n > m - i) // not i + n > m: the sum overflows for n near INT_MAX
 			return *this;
 		asl_destroy(_a+i, n);
 		memmove(_a+i, _a+i+n, (m-i-n)*sizeof(T));
